@@ -455,6 +455,10 @@ def cases(draw, tier):
                  else k["hash"], "sha256" if k["hash"] is None
                  else k["hash"]]))
         k["no_cert"] = draw(st.booleans())
+        k["c_extra_first"] = draw(st.sampled_from([None, "sha256",
+                                                   "sha384"]))
+        k["s_extra_first"] = draw(st.sampled_from([None, None, "sha256",
+                                                   "sha384"]))
         for key in ("c_npn", "s_npn", "c_alpn", "s_alpn"):
             pc[key] = None
         return pc
@@ -512,13 +516,18 @@ def explicit(tier, seed):
             for modes in (["psk_dhe_ke"], ["psk_ke"],
                           ["psk_dhe_ke", "psk_ke"]):
                 for side in (d, lattice.full_side("client")):
-                    yield {"k": "connect_psk", "flavour": "psk",
-                           "c": copy.deepcopy(side),
-                           "s": copy.deepcopy(side), "cred": "rsa",
-                           "psk": {"hash": hs, "c_hash": hc,
-                                   "same_secret": True, "same_id": True,
-                                   "c_modes": modes, "s_modes": modes,
-                                   "no_cert": no_cert}}
+                    for extra in (None, "sha256", "sha384"):
+                        yield {"k": "connect_psk", "flavour": "psk",
+                               "c": copy.deepcopy(side),
+                               "s": copy.deepcopy(side), "cred": "rsa",
+                               "psk": {"hash": hs, "c_hash": hc,
+                                       "same_secret": True, "same_id": True,
+                                       "c_modes": modes, "s_modes": modes,
+                                       "no_cert": no_cert,
+                                       "c_extra_first": extra,
+                                       "s_extra_first": extra and
+                                       ("sha384" if extra == "sha256"
+                                        else "sha256")}}
     # every suite the library lists, pinned settings on both sides with the
     # matching credential: the two sides obviously share it
     from props.c01 import negotiable
@@ -551,7 +560,11 @@ ORTHO = {
     "ec_point_formats": [None, [0]],
     # (shares other than the peer's first choice: HelloRetryRequest)
     "keyShares": [None, [], ["x25519"], ["secp521r1"], ["ffdhe2048"],
-                  ["x448", "secp384r1"]],
+                  ["x448", "secp384r1"], ["ffdhe4096"], ["ffdhe6144"],
+                  ["ffdhe8192"], ["secp384r1"], ["x448"], ["ffdhe3072"]],
+    "dhGroups": [None, ["ffdhe8192"], ["ffdhe6144", "ffdhe4096"]],
+    "eccCurves": [None, ["secp521r1"], ["x448"], ["brainpoolP256r1",
+                                                  "secp384r1"]],
     "useExtendedMasterSecret": [None, False],
     "useEncryptThenMAC": [None, False],
 }
